@@ -154,6 +154,27 @@ def audit(M, cm, g, events=None, closable=False, scope_first_may_be_end=False):
         out.append(V("c05.mass-differs", f"MolGen.weight {g.weight!r}, sum of residue heavy masses {want_mass!r}"))
     facts.update(n_residues=n_inst, n_tokens=len(set(id(t) for t, _ in inst)), multi_atom=any(t.reading.n_atoms > 1 for t, _ in inst), inst=[(t.key, off) for t, off in inst], cross=cross)
 
+    # ---------------------------------------------------------------- C04: every bond joins two atoms that carry (in the NOTATION, read by
+    # the reference reader, not by the library's parser) mutually compatible descriptors of the bond's order, each descriptor used once
+    used_at = collections.Counter()
+    for (i, j), od in cross.items():
+        (ti, oi), (tj, oj) = inst[block_of[i]], inst[block_of[j]]
+        ci = [d for d in ti.descs if d.atom == i - oi]
+        cj = [d for d in tj.descs if d.atom == j - oj]
+        used_at[i] += 1
+        used_at[j] += 1
+        if not ci or not cj:
+            who = [f"atom {x - o} of {t.text}" for (x, o, t, c) in ((i, oi, ti, ci), (j, oj, tj, cj)) if not c]
+            out.append(V("c04.bond-at-atom-without-descriptor", f"bond {(i, j)} between residues {block_of[i]} and {block_of[j]} sits on {' and '.join(who)}, where the notation writes no bond descriptor"))
+        elif not any(rc.compat(a.triple, b.triple) and abs(a.order - od) < 1e-9 for a in ci for b in cj):
+            out.append(V("c04.bond-between-incompatible-written-descriptors", f"bond {(i, j)} of order {od} joins {ti.text} atom {i - oi} (descriptors {[d.triple for d in ci]}) and {tj.text} atom {j - oj} (descriptors {[d.triple for d in cj]}): no compatible pair of that order"))
+    for k, (tok, off) in enumerate(inst):
+        room = collections.Counter(d.atom for d in tok.descs)
+        for a, n_written in room.items():
+            if used_at.get(off + a, 0) > n_written:
+                out.append(V("c04.descriptor-atom-overused", f"atom {a} of residue {k} ({tok.text}) carries {used_at[off + a]} inter-residue bonds but only {n_written} descriptors are written on it"))
+    facts["notation_bonds_checked"] = len(cross)
+
     # ---------------------------------------------------------------- C04: every bond explained by an attach event
     if events is not None:
         hist = getattr(g, "_gbv_hist", None)
